@@ -16,7 +16,7 @@ COMMON = ("Trusted: Lean 4.33 kernel (axioms propext, Classical.choice, Quot.sou
 SC = "Concurrent part: sequentially consistent interleavings at the announced accesses only (hooks, -DYAKUSHIMA_VERIF); schedules are sampled. "
 
 T = {
-    "C01": ("Lean theorem: every history of the single-border protocol model (any number of threads, every interleaving of the single-access steps of get / upsert / unique put / remove, weak validation, slot reuse) is linearizable w.r.t. the map spec, OK gets are never null (repaired reader), writers are serialized; counterexample theorem for the unrepaired reader (D1). Multi-node behaviour (descent, splits, layers) is not a theorem: it is checked on the real code by scheduler-driven histories (per-key Wing-Gong linearizability search, null-value and status checks, final content).",
+    "C01": ("Lean theorem: every history of the single-border protocol model (any number of threads, every interleaving of the single-access steps of get / upsert / unique put / remove, weak validation, slot reuse) is linearizable w.r.t. the map spec, OK gets are never null (repaired reader), writers are serialized; counterexample theorem for the unrepaired reader (D1). Multi-node behaviour (descent, splits, layers) is not a theorem: it is checked on the real code by scheduler-driven histories (per-key Wing-Gong linearizability search, null-value and status checks, final content). The Leaf model itself is tied to the code by outcome-set inclusion: for small single-border scenarios the model enumerates all interleavings of its single-access steps, and every result tuple observed on the real code under the scheduler must be one the model produces.",
             COMMON + SC + "The Leaf model is hand-written from interface_get/put/remove.h and border_node.h; its step granularity is tied to the code by the histories, not by a trace acceptor.",
             "Lean 4 proof (protocol model, linearizability) + deterministic-scheduler history checking"),
     "C02": ("Lean theorems: get/put/unique-put/remove on the layered leaf-chain model refine a function Key -> Option Val for every well-formed tree, every key (arbitrary bytes and length), every absorb direction; every reachable state is well formed; any op sequence answers like the map; emptied storages behave like fresh ones. Tied to the code by differential runs of generated sequences (statuses, values, and the full structure dump after every mutation).",
